@@ -38,6 +38,30 @@ def run(repo, rep):
     from . import c18
 
     rep.run_borrowed(c18, {"C18-b": "C02-h"}, repo)
+    rep.clause("C02-j", "what the hardware is told to read or write is what the access model assumes: IFM2 broadcast bits are set per dimension independently [rule shared with C06-c]; the published arena total counts the aligned address actually assigned [rule shared with C05-c]; a transposing OFM is strided by its own (W, H swapped) shape")
+    from . import c05, c06
+
+    rep.run_borrowed(c06, {"C06-c": "C02-j"}, repo)
+    rep.run_borrowed(c05, {"C05-c": "C02-j"}, repo)
+    hn = repo.mod("high_level_command_to_npu_op")
+    cf = hn.func("create_feature_map")
+    tb = [n_ for n_ in ast.walk(cf) if isinstance(n_, ast.If) and "Op.Transpose" in str(norm(n_.test))]
+    if len(tb) != 1:
+        raise AnalysisError("create_feature_map: Transpose branch not found")
+    gs = [c for c in calls_in(ast.Module(body=tb[0].body, type_ignores=[]), ".get_strides")]
+    ok = False
+    detail = "no get_strides call for the transposed shape inside the Transpose branch"
+    if len(gs) == 1 and gs[0].args:
+        a = gs[0].args[0]
+        sa = {norm(t_.targets[0]): t_.value for t_ in ast.walk(cf) if isinstance(t_, ast.Assign) and len(t_.targets) == 1}
+        while isinstance(a, ast.Name) and a.id in sa:
+            a = sa[a.id]
+        txt = str(norm(a))
+        detail = txt
+        ok = isinstance(a, ast.Call) and call_name(a) == "Shape4D" and re.sub(r"\s", "", txt) in ("Shape4D([op_shape4D.batch,op_shape4D.width,op_shape4D.height,op_shape4D.depth])",
+                                                                                                "Shape4D(op_shape4D.batch,op_shape4D.width,op_shape4D.height,op_shape4D.depth)")
+    rep.check(ok, "C02-j", "ethosu/vela/high_level_command_to_npu_op.py:create_feature_map", "the OFM of a Transpose is strided by the shape [N, W, H, C] (op_shape4D holds the IFM shape)",
+              f"strides come from `{detail}`: with the un-transposed shape the swapped strides address up to W*W*C bytes of an H*W*C tensor")
     rep.clause("C02-i", "byte offsets computed by graph rewrites use each tensor dimension in its layout position: 4-element shape unpackings name N,H,W,C (feature maps) / H,W,I,O (weights) in order")
     rule_shape_unpack(repo, rep)
 
